@@ -2,6 +2,7 @@ import SnaxVerif.Drv.C07
 import SnaxVerif.Props.C06
 import SnaxVerif.Model.AccfgMove
 import SnaxVerif.Model.AccfgLoopOverlap
+import SnaxVerif.Model.AccfgTaint
 namespace SnaxVerif.Drv.C06
 open Lean SnaxVerif SnaxVerif.Drv SnaxVerif.Drv.C07 SnaxVerif.Accfg
 
@@ -34,8 +35,7 @@ def loopOverlap : Handler := fun j => do
     | some r, some b', some b2, some bg =>
       if (blockToJson b').compress != (blockToJson r).compress then "result"
       else if !noGhostB b2 then "ghost-free"
-      else if !wfB bg then "wf"
-      else if !okBb fields bg noFacts then "launch-total"
+      else if !((wfB bg && okBb fields bg noFacts) || okTB fields bg []) then "launch-observes-copy"
       else if !(readsB b).all (· < fresh) then "reads"
       else ""
     | none, _, _, _ => "not-applicable"
